@@ -163,6 +163,25 @@ func MakeSim(s Sched, keepLog bool) *gosim.Sim {
 func simFindings(o *Obs, idx int, want ...string) []Finding {
 	var fs []Finding
 	seen := map[string]bool{}
+	if o.Res.BubbleErr != "" {
+		// synctest found goroutines of this run still blocked when everything else had finished: a goroutine
+		// the call started and did not join (also one that carries no hook, e.g. a helper started by open())
+		leakWanted := false
+		for _, w := range want {
+			if w == gosim.VLeak {
+				leakWanted = true
+			}
+		}
+		reported := false
+		for _, v := range o.Res.Violations {
+			if v.Class == gosim.VLeak || v.Class == gosim.VDeadlock || v.Class == gosim.VStepBudget {
+				reported = true
+			}
+		}
+		if leakWanted && !reported {
+			fs = append(fs, Finding{Class: "goroutine-left-behind", Detail: "after the run: " + o.Res.BubbleErr, Obs: []int{idx}})
+		}
+	}
 	for _, v := range o.Res.Violations {
 		ok := false
 		for _, w := range want {
